@@ -403,6 +403,12 @@ func (f *Flow) prepare(fn *ssa.Function) {
 // summaries generated when it is true (index 0) and false (index 1).
 func (f *Flow) condGen(m *Matcher, cond ssa.Value) (g [2][]Atom, gs [2][]sumRef) {
 	pred, onTrue := normCond(cond)
+	return f.condGenPred(m, pred, onTrue)
+}
+
+// condGenPred: atoms and callee summaries for predicate pred; index 0 is the
+// edge on which pred holds if onTrue, else the edge on which it does not.
+func (f *Flow) condGenPred(m *Matcher, pred Pred, onTrue bool) (g [2][]Atom, gs [2][]sumRef) {
 	holdIdx, otherIdx := 0, 1
 	if !onTrue {
 		holdIdx, otherIdx = 1, 0
@@ -816,6 +822,12 @@ func (f *Flow) successReturns(fn *ssa.Function, errIdx int) []SuccessReturn {
 						continue
 					}
 					s = f.close(s.union(sum))
+				}
+				// `return x.Check()`: on the success outcome that call's error is
+				// nil, so whatever `if err == nil` would establish holds
+				g, _ := f.condGenPred(f.matcherFor(fn), Pred{Kind: "nil", X: rv}, true)
+				if len(g[0]) > 0 {
+					s = f.close(s.with(g[0]...))
 				}
 			}
 		}
